@@ -100,6 +100,25 @@ def step (toks : List String) : Option (String × String) := do
       let p := String.ofList (urlPath kind r)
       some (s!"path={p} query= frag=", s!"path=/v2/{String.ofList base.repository}/{String.ofList kind}/{String.ofList r.reference} query= frag=")
     | none => some ("err", "err")
+  | "req" :: rest =>
+    -- the requests an operation taking a reference string sends: every path is exactly
+    -- /v2/<repository>/manifests/<reference of the parsed form>
+    let regok := (← kv rest "regok") == "1"
+    let base ← parseBase (← kv rest "base")
+    let kind ← kv rest "kind"
+    let dg ← kv rest "dg"
+    let s := (← kv rest "s").toList
+    match repoParseRef (cfgOf regok) base s with
+    | some r =>
+      let slot := s!"/v2/{String.ofList base.repository}/manifests/{String.ofList r.reference}"
+      let byDigest := s!"/v2/{String.ofList base.repository}/manifests/{dg}"
+      let m := match kind with
+        | "resolve" => s!"HEAD:{slot}"
+        | "fetchref" => s!"GET:{slot}"
+        | "pushref" => s!"PUT:{slot}"
+        | _ => s!"GET:{byDigest} PUT:{slot}"
+      some (m, m)
+    | none => some ("err", "err")
   | _ => none
 
 end Oras.Driver.R
